@@ -14,7 +14,7 @@ import logging
 import os
 import random
 
-from haiway import MissingContext, MissingState, State, ctx
+from haiway import MISSING, Missing, MissingContext, MissingState, State, ctx
 
 from harness.vloop import VClock, VLoop
 
@@ -43,6 +43,8 @@ sys.unraisablehook = _quiet_unraisable
 
 class A(State):
     v: int = 0
+    # an attribute that may be left out without having a "real" default: the type still needs no arguments
+    note: str | Missing = MISSING
 
 
 class A2(A):
@@ -58,6 +60,10 @@ class B(State):
 
     def __bool__(self) -> bool:
         return False
+
+    def __iter__(self):
+        # ... and ITERABLE (a state may well be a collection of something): one state is one state, not a collection of states
+        return iter(())
 
 
 TYPES = {"A": A, "A2": A2, "B": B}
